@@ -17,6 +17,7 @@ import (
 	"strconv"
 	"strings"
 	"sync"
+	"sync/atomic"
 	"testing"
 	"time"
 
@@ -310,6 +311,8 @@ func (r *Recorder) Pending(c any) {
 	if r.out == "" {
 		return
 	}
+	pendingSince.Store(time.Now().UnixNano())
+	watchdogOnce.Do(startWatchdog)
 	raw, err := json.Marshal(c)
 	if err != nil {
 		return
@@ -320,9 +323,34 @@ func (r *Recorder) Pending(c any) {
 }
 
 func (r *Recorder) Done() {
+	pendingSince.Store(0)
 	if r.out != "" {
 		os.Remove(filepath.Join(r.out, fmt.Sprintf("pending-%s-%d.json", r.Test, r.shard)))
 	}
+}
+
+// The in-process watchdog: a case announced with Pending that has not reached Done within VERIF_CASE_LIMIT seconds
+// (default 300) ends the process with exit code 97, leaving the pending file; the driver then re-runs that one case
+// alone under its own limit and only a second failure to return is reported as a hang.
+var (
+	pendingSince atomic.Int64
+	watchdogOnce sync.Once
+)
+
+func startWatchdog() {
+	limit := 300
+	if v, err := strconv.Atoi(os.Getenv("VERIF_CASE_LIMIT")); err == nil && v > 0 {
+		limit = v
+	}
+	go func() {
+		for {
+			time.Sleep(2 * time.Second)
+			if s := pendingSince.Load(); s != 0 && time.Since(time.Unix(0, s)) > time.Duration(limit)*time.Second {
+				fmt.Fprintf(os.Stderr, "HANG-SUSPECT: a case has been running for more than %d s\n", limit)
+				os.Exit(97)
+			}
+		}
+	}()
 }
 
 // Health fails the run as a generator/harness problem (exit 2 in the driver), never as a violation.
